@@ -50,6 +50,12 @@ def explore(res, tier, seed, model_ok=True):
     for sc, (js, line, real, model) in zip(bases, base_pairs):
         if isinstance(real, dict):
             res.crashes.append(real); continue
+        # also when nobody abandons anything: however the run ends (normally, or with an exception leaving the iterator) nothing stays open
+        end0 = real.split(' ')[-1]
+        res.case((line, 'not-abandoned'), nontrivial='E:connected' in real)
+        if 'sock=1' in end0 or 'sel=1' in end0:
+            res.failures.append(dict(cls='leak-at-end', what='the iteration ended (%s) and left %s open' % ('an exception escaped' if 'ESCAPED' in real else 'normally', 'the socket' if 'sock=1' in end0 else 'the selector'),
+                                     input=line[-1200:], scenario=js, observed=end0))
         evs = events(real)
         for i in range(len(evs)):
             for mech in MECHS:
@@ -100,6 +106,25 @@ def explore(res, tier, seed, model_ok=True):
                                      input=dict(previous=ch[:-1], next=ch[-1]), observed=end))
         elif tr[-1] != pairs[k][2]:
             res.diffs.append(dict(input=pairs[k][1][:2000], real=tr[-1][-1000:], model=(pairs[k][3] or pairs[k][2])[-1000:], scenario=pairs[k][0], previous=ch[:-1]))
+    # abandoned generators that the application keeps (finalised only after the NEXT connect() on the object, or in the middle of
+    # the next connection): when everything has been finalised, every connection's socket and selector must be closed
+    g = Scenario([]).good_reply()
+    nxt = Scenario(reads([g + server_frame(1, b'next')]) + [('wait', 0, ('eof',))], {}, prate=0)
+    nxt.key_seed = 9
+    kchains, kmeta = [], []
+    for mech in ('late', 'late2'):
+        for k in (1, 2, 3, 4, 5):
+            prev = Scenario(reads([g + server_frame(1, b'one') + server_frame(9, b'p') + server_frame(1, b'two')]) + [('wait', 5, None)], {k: [('abandon', mech)]}, prate=0)
+            kchains.append([coreutil.scenario_to_json(prev), coreutil.scenario_to_json(nxt)]); kmeta.append((mech, k))
+            kchains.append([coreutil.scenario_to_json(prev), coreutil.scenario_to_json(prev), coreutil.scenario_to_json(nxt)]); kmeta.append((mech + 'x2', k))
+    for ch, out, (mech, k) in zip(kchains, runner.parallel_map('coreutil', 'real_chain_final', kchains, chunk=5), kmeta):
+        if '__crash__' in out:
+            res.crashes.append(out); continue
+        res.case(('kept', mech, k)); res.count('kept_generator_' + mech)
+        open_ = [i for i, (so, se) in enumerate(out['final']) if so or se]
+        if open_:
+            res.failures.append(dict(cls='leak-kept-generator', what='generator abandoned at event %d and kept until after the next connect() (%s): connection(s) %s still have a socket / selector open after everything was finalised' % (k, mech, open_),
+                                     input=dict(previous=ch[:-1], next=ch[-1]), observed=out['final']))
     res.samples += [pairs[9][1][-300:], pairs[-1][1][-300:]]
 
 
